@@ -168,7 +168,20 @@ pub fn gen_case(seed: u64, idx: u64) -> Case {
         pansn,
         descriptions: rng.chance(1, 2),
     };
-    let set = genomes::gen_sample_set(&mut rng, &o);
+    let mut set = genomes::gen_sample_set(&mut rng, &o);
+    if pansn && idx % 4 == 0 {
+        // prefix-related sample names in file order (p#1, p#10, p#100, …): one name is a string prefix
+        // of the next, which a reader that recognises "same sample" by prefix would merge
+        const HAPS: [usize; 6] = [1, 10, 100, 11, 2, 20];
+        for (i, smp) in set.samples.iter_mut().enumerate() {
+            let new = format!("p#{}", HAPS[i % HAPS.len()]);
+            for c in smp.contigs.iter_mut() {
+                let rest = c.0.splitn(3, '#').nth(2).unwrap_or("c").to_string();
+                c.0 = format!("{new}#{rest}");
+            }
+            smp.name = new;
+        }
+    }
     let params = Params {
         k,
         segment_size: *rng.pick(&[60usize, 150, 400]),
